@@ -977,6 +977,10 @@ fn main() {
             for idx in from..from + n {
                 println!("START {idx}");
                 run_case(&mut rep, &mut drv, seed, idx);
+                // a later case may kill the process: keep what has been found so far
+                if (idx - from) % 25 == 24 && idx + 1 < from + n {
+                    rep.emit();
+                }
             }
         }
         Some("replay") => {
